@@ -110,7 +110,6 @@ Proof.
     apply negb_false_iff, subseteqb_true in H1. apply negb_false_iff, subseteqb_true in H2.
     destruct (alloc_shared t s (g_pool g) <? _); [discriminate|].
     destruct (negb (spare_allb t s (g_pool g) (g_excl g))); [discriminate|].
-    destruct (_ && _); [discriminate|].
     intros [= <-]. exists g. split; [reflexivity|]. split; [|cbn [free_iso free_shar grants set_grants add_shared account_alloc]; auto].
     intros x Hx. destruct (decide (x ∈ p_iso (pool_at t (g_pool g)))) as [Hi|Hi].
     + apply elem_of_union_l. apply H1. set_solver.
